@@ -81,6 +81,14 @@ protected:
     virtual bool
     childTypeAllowed(int    xslToken) const;
 
+    // Namespace aliases only apply to literal result elements, so the name
+    // of an xsl:attribute must be resolved with the stylesheet's own bindings.
+    virtual void
+    namespacesPostConstruction(
+            StylesheetConstructionContext&  constructionContext,
+            const NamespacesHandler&        theParentHandler,
+            NamespacesHandler&              theHandler);
+
 private:
 
     // not implemented
